@@ -250,3 +250,11 @@ Definition C07_seamless_target : Prop :=
                (snd res = JNil ->
                   (exists D1 D2, from_num start merged = D1 ++ D2 /\ rev (cs_stack c') = D1) \/
                   from_num start (rev (cs_stack c')) = from_num start canon).
+
+(* files_on_hub too follows from "merged blocks are final for the hub" and eventual_tip *)
+Definition C07_files_final_on_hub : Prop :=
+  forall (U : list block) (c : jcfg) (w : world) (merged_end : N) (canon : list block),
+    wf_b U = true -> lib_ok_b LNone U = true -> hub_of_universe U c w ->
+    chain_ok canon -> incl canon U -> eventual_tip c w canon ->
+    let merged := filter (fun b => bnum b <? merged_end) canon in
+    files_final c w merged -> files_on_hub c w merged.
